@@ -14,8 +14,8 @@
 //	E|<kek>|<ad>|<hex>|<label>              EncryptedKeyset through keyset.ReadWithAssociatedData with
 //	                                        an AES-GCM (no prefix) key-encryption key
 //
-// Observation: "U" when the decoded keyset holds a key type whose parser the
-// model does not transcribe (then only the direct check decides), otherwise
+// Observation: "U" when the decoded keyset holds one of the 5 key types whose
+// parser the model does not transcribe (then only the direct check decides), otherwise
 // "c:<o>|n:<o>" (cleartext reader, no-secrets reader) or "e:<o>", <o> = err or
 // h[id.status.primary.idreq.prefix.prim,...] with prim = + (a primitive is
 // created from the key), - (constructor error), ~ (not a modelled type).
@@ -71,6 +71,7 @@ import (
 	ecdsapb "github.com/tink-crypto/tink-go/v2/proto/ecdsa_go_proto"
 	hkdfprfpb "github.com/tink-crypto/tink-go/v2/proto/hkdf_prf_go_proto"
 	hmacpb "github.com/tink-crypto/tink-go/v2/proto/hmac_go_proto"
+	jwthmacpb "github.com/tink-crypto/tink-go/v2/proto/jwt_hmac_go_proto"
 	jwtpk1pb "github.com/tink-crypto/tink-go/v2/proto/jwt_rsa_ssa_pkcs1_go_proto"
 	jwtpsspb "github.com/tink-crypto/tink-go/v2/proto/jwt_rsa_ssa_pss_go_proto"
 	pk1pb "github.com/tink-crypto/tink-go/v2/proto/rsa_ssa_pkcs1_go_proto"
@@ -587,7 +588,15 @@ func weakKey(kd *tinkpb.KeyData) string {
 	case "AesCtrHmacStreamingKey":
 		k := &ctrhmacstreampb.AesCtrHmacStreamingKey{}
 		if proto.Unmarshal(v, k) == nil {
+			if k.GetParams().GetHmacParams().GetTagSize() < 10 {
+				return "HMAC tag under 10 bytes"
+			}
 			return aesWeak(int(k.GetParams().GetDerivedKeySize()))
+		}
+	case "JwtHmacKey":
+		k := &jwthmacpb.JwtHmacKey{}
+		if proto.Unmarshal(v, k) == nil && len(k.GetKeyValue()) < 16 {
+			return "HMAC key under 16 bytes"
 		}
 	case "HkdfPrfKey":
 		k := &hkdfprfpb.HkdfPrfKey{}
